@@ -13,7 +13,7 @@ package lib
 // A-POOL); the buffer's B is empty with a non-zero capacity.
 //@ func TakeBuffer
 //@   trusted
-//@   ensures result != nil && fresh(result) && len(result.B) == 0 && cap(result.B) > 0
+//@   ensures result != nil && fresh(result) && fresh(result.B) && len(result.B) == 0 && cap(result.B) > 0
 
 //@ func ReleaseBuffer
 //@   trusted
@@ -44,3 +44,15 @@ package lib
 //@ func CompressGZIP
 //@   trusted
 //@   ensures result.1 == nil ==> result.0 != nil && fresh(result.0) && fresh(result.0.B) && len(result.0.B) >= 9
+
+// ReadDataFrom appends what one Read call delivers (net.Conn / io.Reader: A-STDLIB)
+//@ func (b *Buffer) ReadDataFrom
+//@   trusted
+//@   modifies b.B, elems(b.B)
+//@   ensures result.0 >= 0 && len(b.B) == old(len(b.B)) + result.0 && cap(b.B) >= len(b.B)
+//@   ensures result.1 != nil || result.0 > 0 || true
+
+//@ func (b *Buffer) Append
+//@   trusted
+//@   modifies b.B, elems(b.B)
+//@   ensures len(b.B) == old(len(b.B)) + len(v)
